@@ -556,3 +556,13 @@ Proof.
   rewrite (word_loop_src_is _ 8 (fun len => proj1 (proj2 (gen_mask_loops_are len 0 0)))).
   destruct (word_loop _ 8 _ _ b1) as [o2 [n2 b2]]. rewrite byte_loop_src_is. reflexivity.
 Qed.
+
+(* ---- ConcurrentMap.GetSharding: the shard index `hashCode & (c.num - 1)` ---- *)
+Lemma gen_shard_index_is (hash : N -> N) num k : (1 <= num < 2 ^ 64)%N ->
+  Z.to_nat (gf_gws_ConcurrentMap_GetSharding_index (Z.of_N num) (Z.of_N (hash k))) = cm_index hash num k.
+Proof.
+  intro H. unfold gf_gws_ConcurrentMap_GetSharding_index, cm_index.
+  replace (Z.of_N num - 1) with (Z.of_N (num - 1)) by lia.
+  rewrite Z.mod_small by (split; [lia|]; change (2 ^ 64) with (Z.of_N (2 ^ 64)); lia).
+  rewrite <- of_N_land. lia.
+Qed.
